@@ -450,7 +450,8 @@ pub enum Case {
 
 #[derive(Clone, Debug, Serialize, Deserialize)]
 pub enum OnceItem {
-    /// a probe element: kind 0 text attr random(), 1 geometry randint, 2 var then text, 3 comment, 4 two occurrences in one attribute
+    /// a probe element: kind 0 text attr random(), 1 geometry randint, 2 var then text, 3 comment, 4 two occurrences in one attribute,
+    /// 5 two identically spelled attributes of one element
     Probe(u8, i32, i32),
     Loop(u8, Vec<OnceItem>),
     /// loop whose count is itself random: randint(lo, hi)
@@ -479,7 +480,7 @@ fn fam_exprs(t: Tier) -> BoxedStrategy<Case> {
 }
 
 fn once_item(depth: u32) -> BoxedStrategy<OnceItem> {
-    let leaf = prop_oneof![8 => (0u8..5, 1..20i32, 1..50i32).prop_map(|(k, lo, span)| OnceItem::Probe(k, lo, lo + span)), 2 => (0u8..2).prop_map(OnceItem::Reuse), 1 => Just(OnceItem::Reuse(2))];
+    let leaf = prop_oneof![8 => (0u8..6, 1..20i32, 1..50i32).prop_map(|(k, lo, span)| OnceItem::Probe(k, lo, lo + span)), 2 => (0u8..2).prop_map(OnceItem::Reuse), 1 => Just(OnceItem::Reuse(2))];
     leaf.prop_recursive(depth, 24, 4, |inner| {
         prop_oneof![
             2 => (1u8..4, vec(inner.clone(), 1..4)).prop_map(|(n, b)| OnceItem::Loop(n, b)),
@@ -496,7 +497,7 @@ fn fam_once(_t: Tier) -> BoxedStrategy<Case> {
 }
 
 fn fam_malformed(_t: Tier) -> BoxedStrategy<Case> {
-    (0u8..9, ast(3), any::<u64>(), 0usize..40, 1usize..5)
+    (0u8..11, ast(3), any::<u64>(), 0usize..40, 1usize..5)
         .prop_map(|(kind, e, ws, fsel, n)| {
             let mut w = ws;
             let good = print(&e, &mut w);
@@ -519,6 +520,9 @@ fn fam_malformed(_t: Tier) -> BoxedStrategy<Case> {
                     }
                 }
                 5 => (format!("{good} + $undefined_var"), "undefined-variable".into()),
+                // an undefined variable where a list would be acceptable: as a function argument, bare, in brackets
+                9 => ([format!("max($undefined_var, {good})"), "$undefined_var".to_string(), "($undefined_var)".to_string(), "count($undefined_var)".to_string(), format!("sum({good}, $undefined_var)")][fsel % 5].clone(), "undefined-variable-as-argument".into()),
+                10 => (format!("head($widht, {good})"), "undefined-variable-as-argument".into()),
                 6 => (format!("{good} +"), "dangling-operator".into()),
                 7 => ("$cyc0 + 1".to_string(), format!("variable-cycle:{n}")),
                 _ => (format!("({good}) ({good})"), "missing-operator".into()),
@@ -573,6 +577,14 @@ fn once_xml(items: &[OnceItem], c: &mut OnceCtx, out: &mut Vec<X>, nest: usize) 
                     3 => {
                         out.push(X::El(XEl::new("rect").a("data-p", format!("{k}")).a("wh", "2").a("_", format!("p{k}={{{{randint({lo}, {hi})}}}}"))));
                         c.expected.push(format!("C{k}:{}", c.rng.random_range(*lo..=*hi)));
+                    }
+                    5 => {
+                        // two attributes of one element spelled identically: still two occurrences, evaluated in attribute order
+                        let e = format!("{{{{randint({lo}, {})}}}}", hi + 100_000);
+                        out.push(X::El(XEl::new("rect").a("data-p", format!("{k}")).a("data-two", "1").a("x", e.clone()).a("y", e).a("wh", "2")));
+                        let a = c.rng.random_range(*lo..=*hi + 100_000);
+                        let b = c.rng.random_range(*lo..=*hi + 100_000);
+                        c.expected.push(format!("Y{k}:{a},{b}"));
                     }
                     _ => {
                         out.push(X::El(XEl::new("text").a("data-p", format!("{k}")).a("xy", "0 0").a("text", format!("{{{{randint({lo}, {hi})}}}}|{{{{randint({lo}, {hi}), random()}}}}"))));
@@ -664,6 +676,8 @@ fn collect_probes(e: &Element, prev_comment: &mut Option<String>, out: &mut Vec<
                             } else if el.has_class("tplr") || el.has_class("tplx") {
                                 // reuse of the rect template: label shown twice (text + data attribute)
                                 out.push(format!("R{k}:{}", el.attr("data-l").unwrap_or("?")));
+                            } else if el.has_attr("data-two") {
+                                out.push(format!("Y{k}:{},{}", el.attr("x").unwrap_or("0"), el.attr("y").unwrap_or("0")));
                             } else {
                                 out.push(format!("X{k}:{}", el.attr("x").unwrap_or("0")));
                             }
